@@ -263,7 +263,7 @@ def run(chk):
         ok = any(core.describe(prog, st, t["args"][1])[0:3] == ("variant", "humphrey::thread::pool::Message", "Shutdown") for blk, t in st.calls_to(r"mpsc::Sender::<T>::send$"))
         chk.ob("R5.stop", st.path, "stop() queues Message::Shutdown behind the pending tasks", ok, "")
     join_rules(chk, prog, None)
-
+    _typing_witness(chk)
 
 def join_rules(chk, prog, prefix):
     """R6/R7: no join on a thread that cannot return; no join while holding a lock the joined thread takes."""
@@ -310,3 +310,13 @@ def join_rules(chk, prog, prefix):
                                f"join while holding {clash}, which the joined thread also takes: deadlock", where=e.where(jb))
             chk.ob(rid, p, f"joined thread identified: {what}", bool(joined), "could not tell which thread is joined", where=b.where(blk))
     chk.extra["join_sites"] = joins
+
+
+def _typing_witness(chk):
+    """thorough tier: compile-fail witness with compiling twin (rustdoc `compile_fail,E0xxx` on nightly)."""
+    if chk.tier != "thorough":
+        return
+    from .. import witness
+    ok, res = witness.run("C08")
+    chk.extra["typing_witness"] = res
+    chk.ob("R1.typing_witness", "witness/typing", "a received task cannot be called twice (compile_fail E0382 + compiling twin)", ok, "Task is no longer consumed by its call: at-most-once is not guaranteed by the type: " + str(res)[:300])
